@@ -157,6 +157,8 @@ def judgeEnc (define : Bool) (g : GraphVal) (topo : Except Nat (List Nat)) (r : 
         else s!"MODEL\tmerge conflict model=({showStr nm},{a},{b}) impl=({showStr nm'},{a'},{b'})"
       -- a merge conflict for type reasons: outside the name-level model
       | .ok _, .merge _ _ _ => "ok"
+      -- ... also when the model goes on to a later error of its own
+      | .error (.implicitConflict _ _ _), .merge _ _ _ => "ok"
       | .ok _, .validation => "MODEL\timpl=ValidationFailure model=ok"
       | .panic _, .panic => "ok"
       | .panic s, _ => s!"MODEL\tmodel panics at {s}, impl does not"
